@@ -39,6 +39,7 @@ pub const FAULT_CLASSES: &[&str] = &[
     "size_negative", "size_non_integer", "size_null", "size_negative_compound",
     "operand_int_plus_bool", "operand_bool_and_int", "operand_int_less_null", "operand_null_plus", "operand_bool_plus", "operand_int_and",
     "print_too_few_arguments", "print_too_many_arguments", "print_no_placeholder_with_argument",
+    "print_plain_format_with_argument", "print_empty_format_with_argument", "print_only_placeholder_no_argument", "print_escape_only_format_with_argument",
     "divide_by_zero", "remainder_by_zero", "min_divided_by_minus_one",
     "call_method_on_function_result_null", "assign_unknown_variable",
     // the same operation succeeded just before: a cache or memo keyed too coarsely would skip the check the second time
@@ -119,6 +120,20 @@ pub fn fault(class: &str, k: usize) -> Fault {
         "print_no_placeholder_with_argument" => {
             let mut x = f("print(\"pn\\n\", 1)");
             x.own = "pn\n".into();
+            x.own_exact = false;
+            x
+        }
+        "print_plain_format_with_argument" => {
+            let mut x = f("print(\"pq\", 1)");
+            x.own = "pq".into();
+            x.own_exact = false;
+            x
+        }
+        "print_empty_format_with_argument" => f("print(\"\", 1)"),
+        "print_only_placeholder_no_argument" => f("print(\"~\")"),
+        "print_escape_only_format_with_argument" => {
+            let mut x = f("print(\"\\t\", 1, 2)");
+            x.own = "\t".into();
             x.own_exact = false;
             x
         }
